@@ -124,9 +124,10 @@ def run_property(prop, tier='quick', replay=None, quiet=False):
     t0 = time.time()
     seed = int(os.environ.get('VERIF_SEED', '0') or 0)
     mod = importlib.import_module('eppsa.rules.%s' % prop.lower())
-    outdir = os.path.join(VERIF, 'out', prop)
+    outroot = os.environ.get('EPP_OUT', VERIF)
+    outdir = os.path.join(outroot, 'out', prop)
     os.makedirs(outdir, exist_ok=True)
-    evpath = os.path.join(VERIF, 'evidence', '%s.json' % prop)
+    evpath = os.path.join(outroot, 'evidence', '%s.json' % prop)
     os.makedirs(os.path.dirname(evpath), exist_ok=True)
     status = 0
     ctx = None
